@@ -6,6 +6,7 @@ import math
 import random
 import sys
 import warnings
+from guard import guarded
 
 warnings.filterwarnings('ignore')
 import stim  # noqa: E402
@@ -135,7 +136,7 @@ def main(out, nseq, seed):
         circs.append(('seq%d' % n, c))
     for name, c in circs:
         for s in SETTINGS:
-            rows.append(row(c, s, name))
+            rows.append(guarded(row, c, s, name, _label='%s / %s' % (name, s['name'])))
     json.dump(rows, open(out, 'w'))
     print(len(rows))
 
